@@ -31,7 +31,7 @@ var lfix *fixture
 var lfixIdle *fixture
 
 func listenersSetup() {
-	f, err := newFixture(listenerKinds, nil)
+	f, err := newFixture(append(append([]string{}, listenerKinds...), "udpmr"), nil)
 	if err != nil {
 		panic(err)
 	}
@@ -333,7 +333,7 @@ func runLinger(m map[string]string) string {
 	late := 0
 	if !huge {
 		// a silent upstream on every listener kind: SERVFAIL, and within the request deadline (6 s) plus slack
-		for ki, kind := range listenerKinds {
+		for ki, kind := range append(append([]string{}, listenerKinds...), "udpmr") {
 			ki, kind := ki, kind
 			extra++
 			wg.Add(1)
@@ -567,7 +567,7 @@ func genServe(r *rand.Rand, thorough bool, emit func(c, cat string)) {
 		rounds, n = 6, 400
 	}
 	for i := 0; i < rounds; i++ {
-		for _, kind := range listenerKinds {
+		for _, kind := range append(append([]string{}, listenerKinds...), "udpmr") {
 			mix := []string{"ok", "mixed"}[r.Intn(2)]
 			if i == 0 {
 				mix = "mixed"
@@ -575,7 +575,7 @@ func genServe(r *rand.Rand, thorough bool, emit func(c, cat string)) {
 			emit(fmt.Sprintf("kind=%s n=%d conc=%d mix=%s seed=%d", kind, n, []int{1, 8, 32}[r.Intn(3)], mix, r.Intn(1<<30)), kind+"-"+mix)
 		}
 	}
-	emit(fmt.Sprintf("kind=all n=33 conc=7 mix=linger seed=%d", r.Intn(30000)), "all-linger")
+	emit(fmt.Sprintf("kind=all n=34 conc=7 mix=linger seed=%d", r.Intn(30000)), "all-linger")
 	emit(fmt.Sprintf("kind=all n=14 conc=7 mix=huge seed=%d", r.Intn(30000)), "all-huge")
 	if thorough {
 		for _, kind := range listenerKinds {
